@@ -808,12 +808,13 @@ package runtime
 //@ func (*array).classifyIndices
 //@   trusted
 //@   modifies all(idxCountByLen)
-// Assumed: a table never holds 2^46 or more integer keys (memory), so the array
-// size computed from the key census stays far below the allocation limit.
+// Assumed: a table never holds more than 5*10^12 integer keys (24-byte values below 2^47 bytes: the
+// amd64 user address space), so the array size computed from the key census stays
+// within the allocation limit.
 //@ func calculateArraySize
 //@   trusted
 //@   modifies nothing
-//@   ensures 0 <= result && result < 70368744177664
+//@   ensures 0 <= result && result <= 5000000000000
 
 // Key normalisation (manual §3.4.3 / §2.1: a float key with an integer value
 // denotes the integer key): what is looked up in, stored into or removed from
@@ -863,7 +864,7 @@ package runtime
 //@   prop C03
 //@   arith int
 //@   requires a != nil ==> arrOK(a) && len(a.values) <= sz
-//@   requires 0 <= sz && sz < 140737488355328
+//@   requires 0 <= sz && sz <= 5000000000000   // (values are 24 bytes: below 2^47 bytes, the amd64 user address space)
 //@   modifies a.values
 //@   ensures result != nil && arrOK(result) && len(result.values) == sz
 //@   ensures a != nil ==> result == a && result.len == old(a.len) && forall(j, 0, old(len(a.values)), result.values[j] == old(a.values[j]))
